@@ -466,6 +466,21 @@ class Normalizer:
             if not changed:
                 break
         self._unroll_new_loops(node)
+        qkey = self.func.qualname
+        if any(d.endswith(".setter") for d in self.func.decorators):
+            qkey += ".setter"
+        snap = known_locals().get(self.module.rel, {}).get(qkey)
+        self.renamed = {}
+        self.propagated = []
+        if snap is not None and not os.environ.get("TYVERIF_NO_LOCALS"):
+            ast.fix_missing_locations(node)
+            for _ in range(3):
+                p_ = propagate_new_temporaries(node, snap)
+                r_ = rename_back(node, snap)
+                self.propagated += p_
+                self.renamed.update(r_)
+                if not p_ and not r_:
+                    break
         if self.flatten:
             node.body = _flatten_else(node.body)
         ast.fix_missing_locations(node)
@@ -599,3 +614,269 @@ def helper_closure(func, depth=3):
                     nxt.append(h[0])
         frontier = nxt
     return out
+
+
+# ---------------------------------------------------------------------------------------------------------------
+# locals: rename new names back to the names of the snapshot, then forward-substitute the remaining new temporaries
+_LOCALS = None
+PURE_CALLEES = {"int", "float", "len", "abs", "str", "min", "max", "sorted", "list", "tuple", "dict", "set", "isinstance", "getattr", "hasattr",
+                "bool", "round", "sum", "any", "all", "zip", "range", "enumerate", "repr", "type", "id"}
+PURE_ROOTS = {"np", "numpy", "math", "os", "posixpath", "re", "constants", "typhon", "datetime", "timedelta", "pd", "xr"}
+PURE_METHODS = {"total_seconds", "ravel", "reshape", "min", "max", "sum", "mean", "astype", "tolist", "copy", "lstrip", "rstrip", "strip", "upper", "lower",
+                "startswith", "endswith", "format", "join", "split", "get", "items", "keys", "values", "cumsum", "argsort", "argmin", "argmax", "flatten",
+                "squeeze", "swapaxes", "transpose", "isel", "sel", "size", "item", "replace", "index", "count", "dot", "any", "all", "std", "intersection",
+                "union", "difference", "isoformat", "strftime", "date", "time", "timestamp", "group", "groupdict", "match", "search", "findall"}
+MUTATORS = {"append", "extend", "insert", "update", "setdefault", "pop", "popitem", "clear", "add", "remove", "discard", "sort", "reverse", "fill", "resize",
+            "popleft", "appendleft", "put", "write"}
+
+
+def known_locals():
+    global _LOCALS
+    if _LOCALS is None:
+        p = os.path.join(os.path.dirname(os.path.abspath(__file__)), "known_locals.json")
+        try:
+            with open(p) as fh:
+                _LOCALS = json.load(fh)
+        except FileNotFoundError:
+            _LOCALS = {}
+    return _LOCALS
+
+
+def _ctext(node, rename=None):
+    from .canon import canon_text
+    if rename:
+        node = _Rename(rename).visit(clone(node))
+    try:
+        return canon_text(node)
+    except Exception:
+        return ast.unparse(node)
+
+
+def local_signatures(fnode, rename=None):
+    """{local name: [signature, ...]} - how each local of the function is defined (canonical text of what it is bound to)"""
+    out = {}
+
+    def add(name, sig):
+        out.setdefault(name, [])
+        if sig not in out[name]:
+            out[name].append(sig)
+
+    def bind(t, sig):
+        if isinstance(t, ast.Name):
+            add(t.id, sig)
+        elif isinstance(t, (ast.Tuple, ast.List)):
+            for i, e in enumerate(t.elts):
+                bind(e.value if isinstance(e, ast.Starred) else e, "%s[%d/%d]" % (sig, i, len(t.elts)))
+    for n in ast.walk(fnode):
+        if isinstance(n, ast.Assign):
+            sig = "=" + _ctext(n.value, rename)
+            for t in n.targets:
+                bind(t, sig)
+        elif isinstance(n, ast.AnnAssign) and n.value is not None:
+            bind(n.target, "=" + _ctext(n.value, rename))
+        elif isinstance(n, ast.For):
+            bind(n.target, "for:" + _ctext(n.iter, rename))
+        elif isinstance(n, ast.With):
+            for it in n.items:
+                if it.optional_vars is not None:
+                    bind(it.optional_vars, "with:" + _ctext(it.context_expr, rename))
+        elif isinstance(n, ast.ExceptHandler) and n.name:
+            add(n.name, "except:" + (_ctext(n.type, rename) if n.type is not None else ""))
+    return out
+
+
+def _all_local_names(fnode):
+    names = set()
+    for n in ast.walk(fnode):
+        if isinstance(n, ast.Name) and isinstance(n.ctx, (ast.Store, ast.Del)):
+            names.add(n.id)
+        elif isinstance(n, ast.ExceptHandler) and n.name:
+            names.add(n.name)
+    return names
+
+
+def rename_back(fnode, snapshot):
+    """new local names whose definition is the definition of a vanished snapshot local get that local's name back"""
+    if not snapshot:
+        return {}
+    mapping = {}
+    for _ in range(6):
+        cur = _all_local_names(fnode)
+        params = {a.arg for a in fnode.args.posonlyargs + fnode.args.args + fnode.args.kwonlyargs}
+        new = {n for n in cur if n not in snapshot and n not in mapping} - params
+        missing = {n for n in snapshot if n not in cur and n not in mapping.values()}
+        if not new or not missing:
+            break
+        sigs = local_signatures(fnode, rename=mapping)
+        found = {}
+        for n in sorted(new):
+            for sig in sigs.get(n, []):
+                cands = [o for o in sorted(missing) if sig in snapshot[o]]
+                if len(cands) == 1 and cands[0] not in found.values():
+                    found[n] = cands[0]
+                    break
+        if not found:
+            break
+        mapping.update(found)
+    if mapping:
+        class R(ast.NodeTransformer):
+            def visit_Name(self, n):
+                if n.id in mapping:
+                    n.id = mapping[n.id]
+                return n
+
+            def visit_ExceptHandler(self, n):
+                if n.name in mapping:
+                    n.name = mapping[n.name]
+                return self.generic_visit(n)
+        R().visit(fnode)
+    return mapping
+
+
+def _pure_expr(e):
+    """no call whose repetition could matter (unknown callee)"""
+    for n in ast.walk(e):
+        if isinstance(n, (ast.Yield, ast.YieldFrom, ast.Await, ast.NamedExpr, ast.Lambda)):
+            return False
+        if isinstance(n, ast.Call):
+            f = n.func
+            if isinstance(f, ast.Name):
+                if f.id not in PURE_CALLEES:
+                    return False
+            elif isinstance(f, ast.Attribute):
+                root = f
+                while isinstance(root, ast.Attribute):
+                    root = root.value
+                if not ((isinstance(root, ast.Name) and root.id in PURE_ROOTS) or f.attr in PURE_METHODS):
+                    return False
+            else:
+                return False
+    return True
+
+
+def propagate_new_temporaries(fnode, snapshot):
+    """`t = expr` for a NEW local t (not in the snapshot), assigned once: uses of t are replaced by expr and the assignment
+    disappears - provided nothing expr depends on changes in between.  Undoes 'introduce temporary', 'hoist common
+    sub-expression' and 'split expression into steps'."""
+    done = []
+    for _ in range(40):
+        cur = _all_local_names(fnode)
+        params = {a.arg for a in fnode.args.posonlyargs + fnode.args.args + fnode.args.kwonlyargs}
+        cand = None
+        # names that are a renamed snapshot local (once the other new temporaries are looked through) keep their statement
+        missing = {n for n in snapshot if n not in cur}
+        newdefs = {}
+        for n_ in ast.walk(fnode):
+            if isinstance(n_, ast.Assign) and len(n_.targets) == 1 and isinstance(n_.targets[0], ast.Name) and n_.targets[0].id not in snapshot \
+                    and n_.targets[0].id not in params:
+                newdefs.setdefault(n_.targets[0].id, []).append(n_.value)
+        single = {k: v[0] for k, v in newdefs.items() if len(v) == 1}
+        keep = set()
+        if missing:
+            for k, v in single.items():
+                e = clone(v)
+                for _d in range(4):
+                    e = _Subst({a: b for a, b in single.items() if a != k}).visit(e)
+                sig = "=" + _ctext(e)
+                if any(sig in snapshot[o] for o in missing):
+                    keep.add(k)
+        for blk_owner in ast.walk(fnode):
+            for fld in ("body", "orelse", "finalbody"):
+                blk = getattr(blk_owner, fld, None)
+                if not (isinstance(blk, list) and blk and isinstance(blk[0], ast.stmt)):
+                    continue
+                for i, st in enumerate(blk):
+                    if not (isinstance(st, ast.Assign) and len(st.targets) == 1 and isinstance(st.targets[0], ast.Name)):
+                        continue
+                    name = st.targets[0].id
+                    if name in snapshot or name in params or name in done or name in keep:
+                        continue
+                    if _try_propagate(fnode, blk, i, name):
+                        cand = name
+                        break
+                if cand:
+                    break
+            if cand:
+                break
+        if not cand:
+            break
+        done.append(cand)
+    return done
+
+
+def _try_propagate(fnode, blk, i, name):
+    st = blk[i]
+    # exactly one binding of the name in the whole function
+    stores = [n for n in ast.walk(fnode) if isinstance(n, ast.Name) and n.id == name and isinstance(n.ctx, (ast.Store, ast.Del))]
+    if len(stores) != 1:
+        return False
+    loads = [n for n in ast.walk(fnode) if isinstance(n, ast.Name) and n.id == name and isinstance(n.ctx, ast.Load)]
+    if not loads:
+        return False
+    rest = blk[i + 1:]
+    inside = {id(n) for s in rest for n in ast.walk(s)}
+    if not all(id(n) in inside for n in loads):
+        return False            # used outside the block that defines it (or before the definition)
+    # not used inside a nested function (late binding) 
+    for s in rest:
+        for n in ast.walk(s):
+            if isinstance(n, (ast.FunctionDef, ast.AsyncFunctionDef)) and any(id(x) in {id(l) for l in loads} for x in ast.walk(n)):
+                return False
+    value = st.value
+    if any(isinstance(n, (ast.Yield, ast.YieldFrom, ast.Await, ast.NamedExpr)) for n in ast.walk(value)):
+        return False
+    if len(loads) > 1 and not _pure_expr(value):
+        return False
+    if len(loads) == 1 and not _pure_expr(value):
+        # a single use of an effectful call may move only if nothing else with effects lies in between: require the very next statement
+        if not any(id(loads[0]) == id(n) for n in ast.walk(rest[0])):
+            return False
+        # and not into a loop / comprehension (would repeat the call)
+        p = getattr(loads[0], "_parent", None)
+        for n in ast.walk(rest[0]):
+            if isinstance(n, (ast.For, ast.While, ast.ListComp, ast.SetComp, ast.DictComp, ast.GeneratorExp)) and any(id(x) == id(loads[0]) for x in ast.walk(n)) \
+                    and not (isinstance(n, ast.For) and any(id(x) == id(loads[0]) for x in ast.walk(n.iter))):
+                return False
+    # nothing the value depends on changes between the definition and the last use
+    deps = {n.id for n in ast.walk(value) if isinstance(n, ast.Name)}
+    dep_attrs = {ast.unparse(n) for n in ast.walk(value) if isinstance(n, ast.Attribute)}
+    last = max(k for k, s in enumerate(rest) if any(id(n) in {id(l) for l in loads} for n in ast.walk(s)))
+    for s in rest[:last + 1]:
+        for n in ast.walk(s):
+            if isinstance(n, ast.Name) and isinstance(n.ctx, (ast.Store, ast.Del)) and n.id in deps:
+                return False
+            if isinstance(n, (ast.Subscript, ast.Attribute)) and isinstance(n.ctx, (ast.Store, ast.Del)):
+                b = n
+                while isinstance(b, (ast.Subscript, ast.Attribute)):
+                    if isinstance(b, ast.Attribute) and ast.unparse(b) in dep_attrs:
+                        return False
+                    b = b.value
+                if isinstance(b, ast.Name) and b.id in deps and b.id != "self":
+                    return False
+            if isinstance(n, ast.Call) and isinstance(n.func, ast.Attribute) and n.func.attr in MUTATORS:
+                b = n.func.value
+                while isinstance(b, (ast.Subscript, ast.Attribute)):
+                    b = b.value
+                if isinstance(b, ast.Name) and b.id in deps and b.id != "self":
+                    return False
+            if isinstance(n, ast.AugAssign):
+                b = n.target
+                while isinstance(b, (ast.Subscript, ast.Attribute)):
+                    b = b.value
+                if isinstance(b, ast.Name) and b.id in deps:
+                    return False
+    # a loop in between re-evaluates: a use inside a loop body while a dependency changes in that loop was excluded above
+    for s in rest[:last + 1]:
+        _Subst({name: value}).visit(s)
+    # _Subst skips lambdas; uses inside lambdas keep the name -> refuse in that case
+    if any(isinstance(n, ast.Name) and n.id == name and isinstance(n.ctx, ast.Load) for s in rest for n in ast.walk(s)):
+        # restore impossible: treat as failure only if nothing was substituted; keep the assignment
+        return True if False else _keep(blk, i)
+    del blk[i]
+    if not blk:
+        blk.append(ast.Pass())
+    return True
+
+
+def _keep(blk, i):
+    return True
